@@ -1,6 +1,7 @@
 import Tickit.Proof.Sgr
 import Tickit.Proof.SgrFrame
 import Tickit.Proof.SgrSuspend
+import Tickit.Proof.SgrStrict
 import Tickit.Model.Modes
 import Tickit.Gen.TermBuf
 /-
@@ -570,5 +571,84 @@ theorem suspend_bytes_tie :
   refine ⟨?_, by decide⟩
   intro d hd
   simp [Tickit.Modes.drvTeardown, Tickit.Modes.drvResume, hd, xtermPauseBytes, xtermResumeBytes, Tickit.Modes.sgrReset]
+
+/-! ### nothing but SGR sequences
+
+  "The rendering state of the terminal is determined by the SGR bytes emitted for setpen/chpen": a pen request puts SGR sequences on
+  the terminal and nothing else (`Model/SgrStrict.lean`) — no byte outside a control sequence (the terminal would print it at the
+  cursor or execute it as a control: the pen request would have drawn something), no sequence other than an unmarked `CSI … m`,
+  and the last sequence is complete.  The correspondence harness judges the same predicate on the bytes of the implementation. -/
+
+/-- Every request emits SGR sequences only, from every cached pen and to every terminal in ground state, for every capability
+    combination, colour count and capacity of `params[]` (no hypothesis on the values). -/
+theorem pen_request_sgr_only (cfg : Cfg) (st : TState) (op : Op) (bs : List Byte) (hg : st.vt.st = .ground)
+    (h : emit cfg st.cache op = .bytes bs) : SgrOnly bs st.vt :=
+  Tickit.Proof.SgrStrict.xtermChpen_sgrOnly _ _ _ _ bs st.vt h hg
+
+/-- Everything a history of requests puts on the terminal, request after request. -/
+def historyBytes (cfg : Cfg) : List Op → Pen → List Byte
+  | [], _ => []
+  | op :: ops, cache =>
+    (match emit cfg cache op with
+      | .bytes bs => bs
+      | .overflow _ => []) ++ historyBytes cfg ops (termCache op.isSet cfg.colors cache op.pen)
+
+/-- … and so does every history of requests. -/
+theorem history_sgr_only (cfg : Cfg) (ops : List Op) (cache : Pen) (vt : VT) (hg : vt.st = .ground) :
+    SgrOnly (historyBytes cfg ops cache) vt := by
+  induction ops generalizing cache vt with
+  | nil => exact sgrOnly_nil vt hg
+  | cons op ops ih =>
+    simp only [historyBytes]
+    cases he : emit cfg cache op with
+    | overflow n => simpa using ih _ vt hg
+    | bytes bs =>
+      have h1 : SgrOnly bs vt := Tickit.Proof.SgrStrict.xtermChpen_sgrOnly _ _ _ _ bs vt he hg
+      exact sgrOnly_append _ _ _ h1 (ih _ _ h1.2.2)
+
+/-- Pause + resume (every mode at its construction value) puts SGR sequences only on the terminal as well. -/
+theorem suspend_sgr_only (cfg : Cfg) (resend : Bool) (st : TState) (bs : List Byte) (hg : st.vt.st = .ground)
+    (h : resumeChpen cfg.caps cfg.cap resend st.cache = .bytes bs) :
+    SgrOnly (xtermPauseBytes ++ xtermResumeBytes ++ bs) st.vt := by
+  have hp : ∀ vt : VT, vt.st = .ground → SgrOnly (xtermPauseBytes ++ xtermResumeBytes) vt := by
+    intro vt hv
+    cases vt with | mk s a =>
+    simp only at hv
+    subst hv
+    exact ⟨by simp [xtermPauseBytes, xtermResumeBytes, strays, isStray, feed],
+           by simp [xtermPauseBytes, xtermResumeBytes, foreign, isForeign, feed],
+           by simp [xtermPauseBytes, xtermResumeBytes, run, feed]⟩
+  have hp := hp st.vt hg
+  refine sgrOnly_append _ _ _ hp ?_
+  unfold resumeChpen at h
+  split at h
+  · exact Tickit.Proof.SgrStrict.xtermChpen_sgrOnly _ _ _ _ bs _ h hp.2.2
+  · cases h; exact sgrOnly_nil _ hp.2.2
+
+/-- non-vacuity: a 256-colour foreground on a fresh terminal is `ESC [ 3 8 : 5 : 2 0 0 m` (`cfgEx` has `:` sub-parameters) … -/
+example : emit cfgEx {} (.ch { fg := some ⟨200, none⟩ }) = .bytes [27, 91, 51, 56, 58, 53, 58, 50, 48, 48, 109] := by decide +kernel
+
+/-- … and the predicate is not vacuous: the same sequence followed by its NUL terminator and left-overs of a scratch buffer
+    (the text `ab`) is rejected — three bytes reach the terminal outside any sequence, two of them are drawn; so is a pen request
+    that sends a cursor movement. -/
+theorem sgr_only_rejects :
+    strays [27, 91, 51, 56, 58, 53, 58, 50, 48, 48, 109, 0, 97, 98] {} = [0, 97, 98] ∧
+    ¬ SgrOnly [27, 91, 51, 56, 58, 53, 58, 50, 48, 48, 109, 0, 97, 98] {} ∧
+    ¬ SgrOnly [27, 91, 49, 109, 27, 91, 50, 67] {} ∧ ¬ SgrOnly [27, 91, 49] {} := by
+  refine ⟨by decide, by decide, by decide, by decide⟩
+
+/-- Text drawn between pen requests (no ESC in it) reaches the terminal in ground state and changes nothing the pen is about:
+    what the harness's `print` step demands of the implementation's bytes. -/
+theorem print_keeps_attrs (text : List Byte) (h : ∀ b ∈ text, b ≠ 27) (vt : VT) (hg : vt.st = .ground) : run text vt = vt := by
+  induction text with
+  | nil => rfl
+  | cons b bs ih =>
+    have hb : b ≠ 27 := h b (by simp)
+    have hf : feed vt b = vt := by
+      unfold feed
+      rw [hg]
+      simp [hb]
+    have := ih (fun x hx => h x (by simp [hx]))
+    simpa [run, hf] using this
 
 end Tickit.Props.C10
